@@ -194,6 +194,51 @@ func runC04(r *Run, replay *Case) {
 			}
 		}
 	}
+	// nested loops with shadowing: the outer loop variable (and index) shadow keys of the root data and are read INSIDE the inner loop, one
+	// scope further in; the inner loop shadows the outer one in turn; after both loops the root values are back
+	for _, root := range []string{"map", "struct"} {
+		for _, names := range [][4]string{{"item", "i", "y", "j"}, {"name", "i", "item", "j"}, {"item", "idx", "item", "j"}} {
+			ov, oi, iv, ii := names[0], names[1], names[2], names[3]
+			tpl := `<b>[[before:{{ item }}/{{ name }}]]</b><div v-for="(` + oi + `, ` + ov + `) in as"><p v-for="(` + ii + `, ` + iv + `) in bs">[[{{ ` + oi + ` }}.{{ ` + ii + ` }}:{{ ` + ov + ` }}/{{ ` + iv + ` }}]]</p><b>[[row{{ ` + oi + ` }}:{{ ` + ov + ` }}]]</b></div><b>[[after:{{ item }}/{{ name }}]]</b>`
+			as, bs := []any{"a", "b"}, []any{"1", "2"}
+			var data any = map[string]any{"as": as, "bs": bs, "item": "ROOT-ITEM", "name": "ROOT-NAME", "i": "ROOT-I", "idx": "ROOT-IDX"}
+			if root == "struct" {
+				type rootN struct {
+					As   []any  `json:"as"`
+					Bs   []any  `json:"bs"`
+					Item string `json:"item"`
+					Name string `json:"name"`
+					I    string `json:"i"`
+					Idx  string `json:"idx"`
+				}
+				data = rootN{as, bs, "ROOT-ITEM", "ROOT-NAME", "ROOT-I", "ROOT-IDX"}
+			}
+			res := renderPage(map[string]string{"p.vuego": tpl}, "p.vuego", data)
+			pendingPages = append(pendingPages, pageCase("nested-shadow", map[string]string{"p.vuego": tpl}, nil, "p.vuego", data, "form:nested-shadow"))
+			want := []string{"before:ROOT-ITEM/ROOT-NAME"}
+			for i, x := range as {
+				for j, y := range bs {
+					outer := fmt.Sprint(x)
+					if iv == ov {
+						outer = fmt.Sprint(y) // the inner variable shadows the outer one
+					}
+					want = append(want, fmt.Sprintf("%d.%d:%s/%s", i, j, outer, y))
+				}
+				want = append(want, fmt.Sprintf("row%d:%s", i, x))
+			}
+			want = append(want, "after:ROOT-ITEM/ROOT-NAME")
+			var got []string
+			for _, mm := range c04Re.FindAllStringSubmatch(res.Out, -1) {
+				got = append(got, mm[1])
+			}
+			c := &Case{Name: fmt.Sprintf("nested-shadow %v root=%s", names, root), Input: map[string]any{"nest": true, "names": names, "root": root, "tpl": tpl}, Impl: res.canon(), Oracle: &Verdict{OK: true}, Tags: []string{"form:nested-shadow"}}
+			c.Key = c.Name
+			if res.Err != "" || strings.Join(got, ",") != strings.Join(want, ",") {
+				c.Oracle = &Verdict{OK: false, Class: "nested-shadowing:" + root, Detail: fmt.Sprintf("markers %v, expected %v (%s); template %q", got, want, res.Err, tpl)}
+			}
+			r.Add(c)
+		}
+	}
 	// nested loops compose
 	for _, a := range colls[:8] {
 		for _, b := range colls[:8] {
